@@ -65,7 +65,8 @@ let parse_tree (toks : string list) : AttrTree.anode =
 let trees : (string * AttrTree.anode) list ref = ref []
 let cur_variant = ref "P"
 let is_variant t =
-  t = "P" || t = "F" || (String.length t > 1 && (t.[0] = 'B' || t.[0] = 'X') && t.[1] >= '0' && t.[1] <= '9')
+  t = "P" || t = "F" || (String.length t > 1 && (t.[0] = 'B' || t.[0] = 'X' || t.[0] = 'Y' || t.[0] = 'Z') && t.[1] >= '0' && t.[1] <= '9')
+let chain_len () = match !cur_variant.[0] with 'Y' -> 2 | 'Z' -> 3 | _ -> 0
 let get_tree () =
   try Stdlib.List.assoc !cur_variant !trees
   with Not_found -> failwith ("no TREE line for variant " ^ !cur_variant)
@@ -143,6 +144,11 @@ let tyval_of_str (s : string) =
 let run_ops (ops : (string * AttrTree.aop) list) : string list =
   let tree = get_tree () in
   let st = ref (AttrTree.ainit tree) in
+  (* chains of clones ("Y": 2, "Z": 3 extra contexts): for keys outside addrxlat every level of
+     the chain resolves to the original dictionary, like a clone that shares it *)
+  for _ = 1 to chain_len () do
+    st := snd (AttrTree.astep (AttrTree.OClone (nat_of_int 0, false)) !st)
+  done;
   Stdlib.List.map (fun (src, o) ->
     let (r, s') = AttrTree.astep o !st in
     st := s';
@@ -216,6 +222,7 @@ let spec_history (ops : string list) (outs : string list) : string =
   let ctxs : (int, view) Hashtbl.t = Hashtbl.create 4 in
   Hashtbl.replace ctxs 0 Shared;
   let nctx = ref 1 in
+  for _ = 1 to chain_len () do Hashtbl.replace ctxs !nctx Shared; incr nctx done;
   let refs : (int, view * coq_N list list) Hashtbl.t = Hashtbl.create 8 in
   (* iterator: directory, keys yielded so far, the key it stands on (None: at the end) *)
   let iters : (int, view * coq_N list list * string list ref * string option ref) Hashtbl.t = Hashtbl.create 4 in
